@@ -57,7 +57,7 @@ def decorate(hist, tr, rng):
 
 def pick_tick(rng, t):
     to_next = 500 - t % 500
-    return max(0, rng.choice([0, 1, 7, to_next - 1, to_next, to_next + 1, 499, 500, 501, 1000, 1500, 9500, 10000, 10500, 25000, rng.randint(0, 3000)]))
+    return max(0, rng.choice([0, 1, 7, to_next - 1, to_next, to_next + 1, 499, 500, 501, 1000, 1500, 9500, 10000, 10500, 25000, 59999, 60000, 60001, 130000, rng.randint(0, 3000)]))
 
 
 def random_ops(rng, s, mode, with_args, n):
